@@ -110,6 +110,13 @@ fn main() {
             "C13" => vharness::fuzzing::replay_artifact(&props::c13::C13, &data),
             "C15" => vharness::fuzzing::replay_artifact(&props::c15::C15, &data),
             "C19" => vharness::fuzzing::replay_artifact(&props::c19::C19, &data),
+            "C02" => vharness::fuzzing::replay_artifact(&props::c02::C02, &data),
+            "C07" => vharness::fuzzing::replay_artifact(&props::c07::C07, &data),
+            "C08" => vharness::fuzzing::replay_artifact(&props::c08::C08, &data),
+            "C09" => vharness::fuzzing::replay_artifact(&props::c09::C09, &data),
+            "C03" => vharness::fuzzing::replay_artifact_with(&props::c03::C03, &data, |d| vharness::fuzzing::decode_history(d, false)),
+            "C04" => vharness::fuzzing::replay_artifact_with(&props::c04::C04, &data, |d| vharness::fuzzing::decode_history(d, false)),
+            "C06" => vharness::fuzzing::replay_artifact_with(&props::c06::C06, &data, |d| vharness::fuzzing::decode_history(d, true)),
             other => {
                 eprintln!("no byte-level decoder for {other}");
                 2
